@@ -51,7 +51,13 @@ function genModule (rng, opts = {}) {
     add('}')
     sites.top = { lo: add(`exports.topError = new Error('top-level-${id} ' + __filename.slice(0, 1))`), top: true, ctor: 'Error' }
     sites.top.hi = sites.top.lo
-    add('Object.assign(exports, { siteThrow, siteNull, siteHook, siteEval, siteNested })')
+    add('function siteColumnZero(a) {')
+    const c0lo = add('  const e =')
+    const c0hi = add(`new TypeError('col-zero-${id} ' + a)`)
+    sites.colzero = { lo: c0lo, hi: c0hi, fn: 'siteColumnZero', args: ['"z"'], ctor: 'TypeError', returned: true }
+    add('  return e')
+    add('}')
+    add('Object.assign(exports, { siteThrow, siteNull, siteHook, siteEval, siteNested, siteColumnZero })')
   } else {
     // nothing to instrument: the rewriter reports notmodified and the package must not translate anything
     add('function siteThrow(a, b) {')
@@ -89,7 +95,7 @@ function collectErrors (exportsObj, mod) {
   const errs = {}
   for (const [name, s] of Object.entries(mod.sites)) {
     if (s.top) { errs[name] = exportsObj.topError; continue }
-    try { exportsObj[s.fn](...s.args.map(a => JSON.parse(a.replace(/^"(.*)"$/, (m, x) => JSON.stringify(x))))); errs[name] = null } catch (e) { errs[name] = e }
+    try { const ret = exportsObj[s.fn](...s.args.map(a => JSON.parse(a.replace(/^"(.*)"$/, (m, x) => JSON.stringify(x))))); errs[name] = s.returned ? ret : null } catch (e) { errs[name] = e }
   }
   return errs
 }
@@ -217,7 +223,8 @@ module.exports = {
       const r = rng.fork('h' + h)
       const pkg = P.loadPackage()
       const rw = new pkg.Rewriter(CFG)
-      const files = Array.from({ length: 5 }, (_, i) => `/srv/c11h/${spec.stream}_${h}/file${i}.js`)
+      // five files, two pairs of which share a base name in different directories
+      const files = [`/srv/c11h/${spec.stream}_${h}/a/index.js`, `/srv/c11h/${spec.stream}_${h}/b/index.js`, `/srv/c11h/${spec.stream}_${h}/a/util.js`, `/srv/c11h/${spec.stream}_${h}/util.js`, `/srv/c11h/${spec.stream}_${h}/file4.js`]
       const current = new Map() // file -> {kind, mod, content}
       const len = r.range(6, 20)
       const hist = []
@@ -227,7 +234,7 @@ module.exports = {
         const mod = genModule(r.fork(step), { instrumented: kindV !== 'notmodified' })
         let code = mod.code
         if (kindV === 'syntax-error') code = code.replace('function siteThrow(a, b) {', 'function siteThrow(a, b) { ) ')
-        hist.push(`${path.basename(file)}:${kindV}`)
+        hist.push(`${file.split('/').slice(-2).join('/')}:${kindV}`)
         let resp = null
         try { resp = rw.rewrite(code, file) } catch (e) { if (kindV !== 'syntax-error') rep.inconclusive.push({ reason: 'rewrite-failed', detail: String(e.message).slice(0, 100) }) }
         if (resp) {
